@@ -3,6 +3,7 @@ package h
 import (
 	"encoding/json"
 	"fmt"
+	"strings"
 
 	"verif/rt"
 	"verif/sched"
@@ -90,6 +91,38 @@ func poolOracle(sc PoolScenario, r *PoolResult) (fs []Finding) {
 			fs = append(fs, Finding{Sig: sc.Harness + " backend-contents-differ", What: "after all calls returned the backend holds " + trunc200(r.FinalStore) + " ; the same commands over a direct connection leave " + trunc200(r.ExpectedStore), Clause: "backend-contents"})
 		}
 	}
+	// with cuts the pool may execute a command more than once, but a write it reports as done must
+	// have been executed at least once: its effect is in the backend (callers use private keys)
+	if sc.MaxCuts > 0 && r.Final != nil {
+		for i, op := range sc.Callers {
+			if !r.Done[i] || r.Results[i].Class != "ok" {
+				continue
+			}
+			it, present := r.Final[op.Key]
+			lost := ""
+			switch op.Kind {
+			case "set", "add", "replace":
+				if !present || it != string(op.Value()) {
+					lost = fmt.Sprintf("the backend does not hold the value (present=%v %q)", present, trunc200(it))
+				}
+			case "delete":
+				if present {
+					lost = "the key is still there"
+				}
+			case "append":
+				if !present || !strings.HasSuffix(it, string(op.Value())) {
+					lost = fmt.Sprintf("the backend's value does not end in the appended bytes (present=%v %q)", present, trunc200(it))
+				}
+			case "prepend":
+				if !present || !strings.HasPrefix(it, string(op.Value())) {
+					lost = fmt.Sprintf("the backend's value does not start with the prepended bytes (present=%v %q)", present, trunc200(it))
+				}
+			}
+			if lost != "" {
+				add(i, "acknowledged-write-never-executed", "the call returned success after a connection loss, but "+lost)
+			}
+		}
+	}
 	if sc.Late {
 		n := len(sc.Callers)
 		if !r.Done[n] {
@@ -146,6 +179,11 @@ func poolCommands(i int) (cmds []wire.Op, prep []wire.Op) {
 		// what the text protocol's "get a a b" produces: every key with opaque 0, nothing quiet
 		{Kind: "mget", Keys: []string{k("h"), k("h"), k("m"), k("h2"), k("h")}, Opaque0: true},
 		{Kind: "mgete", Keys: []string{k("h2"), k("h"), k("h")}, Opaque0: true},
+		// quiet writes (SETQ, DELETEQ, ... arrive at the handler as the same call with the quiet flag)
+		{Kind: "set", Key: k("m"), Val: "quiet" + tag, Flags: 4, QuietW: true},
+		{Kind: "delete", Key: k("h"), QuietW: true},
+		{Kind: "append", Key: k("h"), Val: "+q" + tag, QuietW: true},
+		{Kind: "add", Key: k("h"), Val: "addq" + tag, QuietW: true},
 		// multi-key get-with-expiry (every hit must carry the remaining lifetime)
 		{Kind: "mgete", Keys: []string{k("h"), k("m"), k("h"), k("h2")}},
 	}
